@@ -297,6 +297,12 @@ theorem alwaysOff_constant (rnd : ℚ → ℚ) (a : Args) : (shouldSampleWith rn
 /-- 0.5 and its successor double as exact rationals -/
 example : Dbl.ofBits 0x3fe0000000000000 = .fin (1 / 2) := by decide +kernel
 example : threshold (1 / 2) = 0x7fffffffffffffff := by decide +kernel
+/-- −0.0 is the rational 0 (so it is covered by `ratio_le_zero_never`); the smallest subnormal has threshold 0;
+    the largest double below 1 has threshold 2^64 − 2^11 − 1 -/
+example : Dbl.ofBits 0x8000000000000000 = .fin 0 := by decide +kernel
+example : thresholdD (Dbl.ofBits 1) = some 0 := by decide +kernel
+example : thresholdD (Dbl.ofBits 0x3fefffffffffffff) = some 0xfffffffffffff7ff := by decide +kernel
+example : Dbl.le (.fin (1 - 1 / 2 ^ 53)) (.fin 1) := by show (1 - 1 / 2 ^ 53 : ℚ) ≤ 1; norm_num
 /-- a valid sampled remote parent under `ParentBased(AlwaysOff)`: sampled, parent's trace state -/
 example : shouldSample (.parentBased .alwaysOff)
     ⟨⟨[1,0,0,0,0,0,0,0,0,0,0,0,0,0,0,0], [1,0,0,0,0,0,0,0], 0xff, true, [([107], [118])]⟩, [], [], 0, [], []⟩
